@@ -331,7 +331,9 @@ from .rules import effects  # noqa: E402
              "path whatever was asked before (two contracts whose blocks share ids, both orders, repeated); thorough tier: (T-HISTORY(runs)) "
              "whole runs with the real analyses give the same contexts and JSON results after another contract, with the detectors "
              "registered in the opposite order, and when run twice; (R-DEFAULT) no mutable default arguments. "
-             "Not decided: uniqueness of the fixpoint under different worklist orders; byte-identity of whole outputs.")
+             "(T-ORDER(fixpoint)) the analyses give the same contexts when the function's block list and subroutine table are listed in the "
+             "opposite order (5 programs with two subroutines, loops, early exits). Not decided: uniqueness of the fixpoint under every "
+             "worklist order on every program; byte-identity of whole outputs.")
 def c14(ctx, rep):
     _r(effects.rule_shared_roots, ctx, rep)
     _r(effects.rule_hash_order, ctx, rep)
@@ -339,6 +341,7 @@ def c14(ctx, rep):
     _r(effects.rule_mutable_defaults, ctx, rep)
     _r(effects.rule_pure_lattice, ctx, rep)
     _r(detectors.rule_history, ctx, rep)
+    _r(spelling.rule_fixpoint_order, ctx, rep)
     _r(cmptables.rule_addr_store, ctx, rep)
     _r(cmptables.rule_int_store, ctx, rep)
     _r(cmptables.rule_universe_fresh, ctx, rep)
